@@ -56,13 +56,14 @@ def size_terms(v, t, out, ver=None, depth=0):
                 size_terms(v.f[name], ft, out)
 
 
-def find_model(ver, ob, extra_sizes=()):
+def find_model(ver, ob, extra_sizes=(), extra_constraints=()):
     from . import quant
     hyps, pc, goal = build_vc(ver, ob)
     qf, full = quant.prepare(hyps, pc, goal)
     for asserts in (qf, full):
         if asserts is None:
             continue
+        asserts = list(asserts) + list(extra_constraints)
         m, b = _find_model(ver, asserts, extra_sizes)
         if m is not None:
             return m, b
@@ -489,6 +490,14 @@ def build_test(ver, ob, model, func, job):
     else:
         body.append("func() { %s; %s(%s) }()" % (rec, call, ", ".join(args)))
         body.append("if t.Failed() { return }")
+    if ob is not None and ob.kind == "alloc":
+        g.imports.add("runtime")
+        # wrap: measure bytes allocated by the call itself
+        for k, line in enumerate(body):
+            if line.startswith(", ".join(rnames) + " := func()") or line.startswith("func() { defer"):
+                body[k] = "var zzM0, zzM1 runtime.MemStats; runtime.GC(); runtime.ReadMemStats(&zzM0); " + line + "; runtime.ReadMemStats(&zzM1)"
+        body.append('fmt.Printf("GOVC-REPLAY allocated-bytes: %d\\n", zzM1.TotalAlloc-zzM0.TotalAlloc)')
+        body.append('if zzM1.TotalAlloc-zzM0.TotalAlloc >= 1<<24 { fmt.Printf("GOVC-REPLAY allocation-exceeds-bound\\n"); t.Fail() }')
     if clause_go:
         body.append('defer func() { if r := recover(); r != nil { fmt.Printf("GOVC-REPLAY clause-evaluation-panic: %v\\n", r) } }()')
         body.append("ok := %s" % clause_go)
@@ -534,6 +543,8 @@ def run_test(src, pkgpath, repo, timeout=120):
 def verdict(rc, out, ob):
     if "GOVC-REPLAY panic" in out:
         return True, "reproduced: " + [l for l in out.splitlines() if "GOVC-REPLAY panic" in l][0]
+    if "GOVC-REPLAY allocation-exceeds-bound" in out:
+        return True, "reproduced: " + [l for l in out.splitlines() if "allocated-bytes" in l][0] + " for an input of a few bytes"
     if "GOVC-REPLAY clause-holds: false" in out:
         return True, "reproduced: postcondition evaluates to false on the real code"
     if "GOVC-REPLAY clause-holds: true" in out:
@@ -562,7 +573,13 @@ def handle_failure(pid, job, repo, tier):
         ver = None
     if ver is not None and ob is not None:
         try:
-            model, bound = find_model(ver, ob)
+            model, bound = None, None
+            if ob.kind == "alloc" and z3.is_app(ob.goal) and ob.goal.num_args() == 2:
+                # make the violation unmistakable: a request of at least 16M elements against a bound under 64K
+                cnt, bnd = ob.goal.arg(0), ob.goal.arg(1)
+                model, bound = find_model(ver, ob, extra_constraints=[cnt >= (1 << 24), cnt <= (1 << 27), bnd <= (1 << 16), bnd >= 0])
+            if model is None:
+                model, bound = find_model(ver, ob)
             if model is None:
                 rec["verdict"] = "no counterexample model available (solver: %s)" % bound
             else:
